@@ -31,7 +31,7 @@ class C01(EvalCheck):
     MASKS = lambda self, t, rng: [0]
     KS = lambda self, t, rng: []
     def volume(self, tier):
-        return 300 if tier == "quick" else 20000
+        return 300 if tier == "quick" else 8000
     def exact_limit(self):
         return 150
     def keyfilter(self, k):
